@@ -22,7 +22,7 @@ CLASSES = ['symtable', 'intermediate', 'pysnmp', 'jsondoc', 'parser', 'compiler'
 THEOREMS = (['Pysmi.Pins.SkelC12.pin_lexerReset', 'Pysmi.Obj.C12_history_independent', 'Pysmi.Obj.C12_leak_witness', 'Pysmi.Obj.parseFrom_fresh',
              'Pysmi.Obj.C12_parser_history_independent', 'Pysmi.Obj.C12_sorted_order_free', 'Pysmi.Obj.C12_unsorted_witness'] +
             ['Pysmi.Generated.Fields.C12_covered_%s' % c for c in CLASSES] +
-            ['Pysmi.Generated.Fields.pin_setIterations_%s' % c for c in CLASSES])
+            ['Pysmi.Generated.Fields.pin_setIterations_%s' % c for c in CLASSES] + ['Pysmi.Generated.Fields.C12_no_class_level_state'])
 TECHNIQUE = ('Lean 4 theorems: frame theorem for stateful objects (entry method re-initialises `resets`; body reads only `reads`, writes only '
              '`writes`; every field read is reset or never written => the output after ANY history equals the output of a fresh object), '
              'instantiated by kernel-decided coverage of the field tables regenerated from the Python source by a static analysis on every '
